@@ -1,3 +1,4 @@
+import MdsVerif.Gen.Slice
 /-!
 # Model of the slice utilities of `slice/slice.go`
 
@@ -14,6 +15,10 @@ the subslices a function returns is expressible: two headers into the same
   by statement, on the window (`vs[i]` ↦ `getD i`, `vs[i] = v` ↦ `set i v`);
   the slicing expressions (`vs[:i:i]`, `vs[i:end:end]`, `vs[:n]`, …) go through
   `slice2`/`slice3`, which carry Go's bounds checks.
+* The guards, the arithmetic and the slicing shape (clipped `vs[i:end:end]` or not) of
+  Partition, sliceCheck, indexCheck, Rotate, gcd, Chunks, Batches, Head, Tail, Stripe are
+  definitions of `MdsVerif.Gen.Slice`, regenerated from slice/slice.go on every run by
+  `extract/slice.go` (DESIGN.md §3.1); `Props.C17.C17_current` pins them.
 -/
 namespace MdsVerif.Model.Slice
 
@@ -96,45 +101,47 @@ def partLoop (keep : α → Bool) : Nat → List α → Nat → Nat → Option (
   | f + 1, vs, i, j =>
     if i < vs.length then
       let j := scanUnkept keep vs (vs.length - j) j
-      if j = vs.length then some (vs, i)
+      if Gen.Slice.partitionDone j vs.length then some (vs, i)   -- `if j == len(vs) { return vs[:i:i] }`
       else partLoop keep f (swap vs i j) (i + 1) (j + 1)
     else some (vs, i)
 
 /-- the body of `Partition` after the `len(vs) == 0` test, on the window -/
 def partitionW (keep : α → Bool) (vs : List α) : Option (List α × Nat) :=
   let i := scanKept keep vs vs.length 0
-  partLoop keep (vs.length + 1) vs i (i + 1)
+  partLoop keep (vs.length + 1) vs i (Gen.Slice.partitionJ i)   -- `j := i + 1`
 
 /-- `Partition(vs, keep)`: new memory and the returned header -/
 def partition (keep : α → Bool) (mem : List α) (h : Hdr) : Res (List α × Hdr) :=
-  if h.len = 0 then .ok (mem, h)          -- `return vs` (NOT clipped)
+  if Gen.Slice.partitionEmpty h.len then .ok (mem, h)          -- `return vs` (NOT clipped)
   else match partitionW keep (window mem h) with
     | none => .hang
-    | some (w, i) => (slice3 h 0 i i).map fun r => (store mem h w, r)   -- `vs[:i:i]`
+    | some (w, i) =>   -- `vs[:i:i]`
+      (if Gen.Slice.partitionClips then slice3 h 0 i i else slice2 h 0 i).map fun r => (store mem h w, r)
 
 /-! ### Rotate -/
 
 def sliceCheck (i n : Int) : Int × Bool :=
-  let i := if i < 0 then i + n else i
-  (i, decide (i ≥ 0 ∧ i ≤ n))
+  let i := if Gen.Slice.sliceCheckNeg i then Gen.Slice.sliceCheckNorm i n else i
+  (i, Gen.Slice.sliceCheckOk i n)
 
 def indexCheck (i n : Int) : Int × Bool :=
-  let i := if i < 0 then i + n else i
-  (i, decide (i ≥ 0 ∧ i < n))
+  let i := if Gen.Slice.indexCheckNeg i then Gen.Slice.indexCheckNorm i n else i
+  (i, Gen.Slice.indexCheckOk i n)
 
 /-- `for b != 0 { a, b = b, a%b }; return a` -/
 def gcdLoop : Nat → Nat → Nat → Option Nat
   | 0, _, _ => none
-  | f + 1, a, b => if b ≠ 0 then gcdLoop f b (a % b) else some a
+  | f + 1, a, b =>
+    if Gen.Slice.gcdContinues a b then gcdLoop f (Gen.Slice.gcdNextA a b) (Gen.Slice.gcdNextB a b) else some a
 
 /-- inner `for { … }` of Rotate for the cycle that starts at `j` -/
 def rotInner (n k j : Nat) : Nat → List α → Nat → α → Option (List α)
   | 0, _, _, _ => none
   | f + 1, ss, i, cur =>
-    let next := (i + k) % n
+    let next := Gen.Slice.rotateNext i k n
     let nextv := ss.getD next default
     let ss := ss.set next cur
-    if next = j then some ss else rotInner n k j f ss next nextv
+    if Gen.Slice.rotateCycleDone next j then some ss else rotInner n k j f ss next nextv
 
 /-- `for j := range g { … }` -/
 def rotOuter (n k : Nat) : Nat → Nat → List α → Option (List α)
@@ -149,9 +156,10 @@ def rotateW (ss : List α) (k : Int) : Res (List α) :=
   let n := ss.length
   let (k, ok) := sliceCheck k n
   if !ok then .panic "offset out of range"
-  else if k = 0 ∨ k = n then .ok ss
+  else if Gen.Slice.rotateNoop k n then .ok ss
   else
-    match gcdLoop (n + 1) k.toNat n with
+    -- `g := gcd(k, len(ss))`
+    match gcdLoop (n + 1) (Gen.Slice.rotateGcdFst k.toNat n) (Gen.Slice.rotateGcdSnd k.toNat n) with
     | none => .hang
     | some g =>
       match rotOuter n k.toNat g 0 ss with
@@ -166,49 +174,54 @@ def rotate (mem : List α) (h : Hdr) (k : Int) : Res (List α) :=
 
 /-- `for i < len(vs) { end := min(i+n, len(vs)); out = append(out, vs[i:end:end]); i = end }` -/
 def chunksLoop (h : Hdr) (n : Nat) : Nat → Nat → Res (List Hdr)
-  | 0, i => if i < h.len then .hang else .ok []
+  | 0, i => if Gen.Slice.chunksContinues i h.len then .hang else .ok []
   | f + 1, i =>
-    if i < h.len then
-      let e := min (i + n) h.len
-      (slice3 h i e e).bind fun c => (chunksLoop h n f e).map (c :: ·)
+    if Gen.Slice.chunksContinues i h.len then
+      let e := Gen.Slice.chunksEnd i n h.len
+      (if Gen.Slice.chunksClip then slice3 h i e e else slice2 h i e).bind fun c =>
+        (chunksLoop h n f e).map (c :: ·)
     else .ok []
 
 def chunks (h : Hdr) (n : Int) : Res (List Hdr) :=
-  if n < 0 then .panic "max must be positive"
-  else if n = 0 ∨ n ≥ h.len then .ok [h]
+  if Gen.Slice.chunksPanics n then .panic "max must be positive"
+  else if Gen.Slice.chunksWhole n h.len then .ok [h]
   else chunksLoop h n.toNat h.len 0
 
 /-- `for i < len(vs) { end := i + size; if rem > 0 { end++; rem-- }; out = append(out, vs[i:end:end]); i = end }` -/
 def batchesLoop (h : Hdr) (size : Nat) : Nat → Nat → Nat → Res (List Hdr)
-  | 0, i, _ => if i < h.len then .hang else .ok []
+  | 0, i, _ => if Gen.Slice.batchesContinues i h.len then .hang else .ok []
   | f + 1, i, rem =>
-    if i < h.len then
-      let e := i + size
-      let (e, rem) := if rem > 0 then (e + 1, rem - 1) else (e, rem)
-      (slice3 h i e e).bind fun c => (batchesLoop h size f e rem).map (c :: ·)
+    if Gen.Slice.batchesContinues i h.len then
+      let e := Gen.Slice.batchesEnd i size
+      let (e, rem) :=
+        if Gen.Slice.batchesHasRem rem then (Gen.Slice.batchesEndInc e, Gen.Slice.batchesRemDec rem) else (e, rem)
+      (if Gen.Slice.batchesClip then slice3 h i e e else slice2 h i e).bind fun c =>
+        (batchesLoop h size f e rem).map (c :: ·)
     else .ok []
 
 def batches (h : Hdr) (n : Int) : Res (List Hdr) :=
-  if n < 0 then .panic "n out of range"
-  else if n = 0 then .ok []
+  if Gen.Slice.batchesPanics n then .panic "n out of range"
+  else if Gen.Slice.batchesNil n then .ok []
   else
-    let n := if n > h.len then (h.len : Int) else n
-    if n = 0 then .ok []
-    else batchesLoop h (h.len / n.toNat) h.len 0 (h.len % n.toNat)
+    let n := if Gen.Slice.batchesCaps n h.len then Gen.Slice.batchesCapped n h.len else n
+    -- `if n == 0 { return nil }` (present since commit fd281a1; without it `len(vs)/n` divides by zero)
+    if Gen.Slice.batchesGuardsEmpty && Gen.Slice.batchesEmpty n then .ok []
+    else if n = 0 then .panic "divzero"
+    else batchesLoop h (Gen.Slice.batchesSize h.len n.toNat) h.len 0 (Gen.Slice.batchesRem h.len n.toNat)
 
 /-! ### Head, Tail, Stripe, At, PtrAt -/
 
 def head (h : Hdr) (n : Int) : Res Hdr :=
-  if (h.len : Int) < n then .ok h else slice2 h 0 n
+  if Gen.Slice.headWhole h.len n then .ok h else slice2 h 0 n
 
 def tail (h : Hdr) (n : Int) : Res Hdr :=
-  if (h.len : Int) < n then .ok h else slice2 h (h.len - n) h.len
+  if Gen.Slice.tailWhole h.len n then .ok h else slice2 h (Gen.Slice.tailStart h.len n) h.len
 
 /-- `for _, v := range vs { if i < len(v) { out = append(out, v[i]) } }` (the result is fresh) -/
 def stripe : List (List α) → Int → Res (List α)
   | [], _ => .ok []
   | v :: vs, i =>
-    if i < v.length then
+    if Gen.Slice.stripeHas i v.length then
       if 0 ≤ i then (stripe vs i).map (v.getD i.toNat default :: ·) else .panic "index"
     else stripe vs i
 
